@@ -134,6 +134,38 @@ def _replay(run, cfg):
     run.traces_validated += n
 
 
+def text_value_checks(run) -> None:
+    """Sweep values need not be numbers: an explicit sequence of TEXT values -- including text that looks like a
+    number ("007", "1e3", "1_0", "12") -- is bound to the variable as declared, element i is the wrapped processor
+    applied to the expression evaluated on the i-th declared value, and <var>_values is the declared sequence."""
+    from semantiva.data_types import NoDataType
+    from ..seams import run_nodes
+
+    texts = ["007", "12", "1e3", "1_0", "3"]
+    for form in ("values", "bare"):
+        for kind in ("src", "op", "probe"):
+            sweep = {"parameters": {"a": 'float(str(t) + "5")'}, "variables": {"t": ({"values": list(texts)} if form == "values" else list(texts))}}
+            node = {"processor": PROC[kind], "parameters": {"b": 5.0}, "derive": {"parameter_sweep": sweep}}
+            if kind == "probe":
+                node["context_key"] = "res"
+            else:
+                sweep["collection"] = "FloatDataCollection"
+            pre = [] if kind == "src" else [{"processor": "FloatValueDataSource", "parameters": {"value": 1.0}}]
+            obs = run_nodes(pre + [node], NoDataType(), {})
+            run.evaluations += 1
+            base = 0.0 if kind == "src" else 1000.0
+            want = [base + 10 * float(v + "5") + 5.0 for v in texts]
+            if obs["construct_error"] or obs["raised"] is not None:
+                run.violation(f"text-values:raises:{kind}", f"sweep over the text values {texts} ({form} form) fails: {obs['construct_error'] or obs['raised']}; {node}", {"node": node})
+                continue
+            data, fctx = obs["final"]
+            got = fctx.get("res") if kind == "probe" else (data[1] if data[0] == "coll" else data)
+            if not close(got, want):
+                run.violation(f"text-values:elements:{kind}", f"sweep over the text values {texts} with a = float(str(t) + \"5\"): expected elements {want}, got {got}; {node}", {"node": node})
+            if list(fctx.get("t_values") or []) != texts or any(type(x) is not str for x in fctx.get("t_values") or []):
+                run.violation(f"text-values:published:{kind}", f"t_values should be the declared sequence {texts}, found {fctx.get('t_values')!r}; {node}", {"node": node})
+
+
 def replay_one(payload):
     from .. import seams
     seams.setup()
@@ -163,6 +195,7 @@ def check(tier: str) -> int:
         run.add_tlc(res3)
         run.require_tlc_ok(res3, "Sweep.three.check")
         _replay(run, "Sweep.three.emit")
+    text_value_checks(run)
     if set(run.extra.get("cases_by_kind", {})) != {"src", "op", "probe"}:
         raise core.MachineryError("vacuity: not all three wrapped kinds were exercised")
     run.sample({"spec": "probe, by_position + broadcast, t in [1,2], u in log 1..100", "node": g_sweep({"kind": "probe", "vars": {"t": {"t": "seq", "vals": [1, 2]}}, "mode": "bp", "bc": True, "expr": "2*t", "bplace": "default"})[-1]})
